@@ -560,7 +560,14 @@ def r09d(ck, prog):
             continue
         # option table: InitListExpr rows {"name", has_arg, flag, val}
         optval = {}
-        for il in F.body.find("InitListExpr"):
+        tables = list(F.body.find("InitListExpr"))
+        # the table may be a file-scope constant the function hands to getopt
+        from ..model import N as _N
+        used = {r.d["name"] for r in F.body.find("DeclRefExpr") if r.d.get("g")}
+        for g in prog.globals:
+            if g["name"] in used and g.get("init"):
+                tables += list(_N(g["init"], None, "init", None).find("InitListExpr"))
+        for il in tables:
             if len(il.kids) == 4 and il.kids[0].strip(casts=True).k == "StringLiteral" and il.kids[3].cv is not None:
                 optval[il.kids[0].strip(casts=True).d["s"]] = il.kids[3].cv
         for p in PENALTIES:
